@@ -28,7 +28,10 @@ FMT_BY_CMD = {
 def shards(tier, seed):
     from vmon.spec import cdb as S
 
-    return [{"id": c.name, "cmd": c.name, "reps": 2 if tier == "quick" else 40} for c in S.COMMANDS.values() if c.facade]
+    out = [{"id": c.name, "cmd": c.name, "reps": 2 if tier == "quick" else 40} for c in S.COMMANDS.values() if c.facade]
+    for i in range(4 if tier == "quick" else 16):
+        out.append({"id": "session%d" % i, "cmd": None, "sessions": 30 if tier == "quick" else 400})
+    return out
 
 
 def sentinel(c, name, rng):
@@ -127,6 +130,72 @@ def optional_names(c):
     return names
 
 
+def run_sessions(shard, ctx):
+    """one facade object and one device kept alive over 5..40 calls of mixed methods (some failing in the device):
+    every call still sends exactly one command with its own arguments and the right opcode"""
+    import pyscsi.pyscsi.scsi_enum_command as E
+
+    from vmon import harness
+    from vmon.spec import cdb as S, dataout as DO
+
+    rng = ctx.rng()
+    by_set = {}
+    for c in S.COMMANDS.values():
+        if c.facade:
+            for st in c.sets:
+                by_set.setdefault(st, []).append(c)
+    for _ in range(shard["sessions"]):
+        setname = rng.choice(sorted(by_set))
+        fail_at = set()
+        calls = []
+
+        class Dev(harness.Recorder):
+            def execute(self, cmd, en_raw_sense=False):
+                calls.append(cmd)
+                if len(calls) in fail_at:
+                    raise InjectedFault("device failure %d" % len(calls))
+
+        dev = Dev(getattr(E, setname))
+        s = harness.make_facade(dev, 512)
+        n = rng.randint(5, 40)
+        fail_at.update(rng.sample(range(1, n + 1), rng.randint(0, 3)))
+        hist = []
+        for i in range(n):
+            c = rng.choice(by_set[setname])
+            a = required_args(c, rng)
+            opt = [o for o in optional_names(c) if c.args[o][0] == "u"]
+            for o in rng.sample(opt, rng.randint(0, len(opt))):
+                a[o] = sentinel(c, o, rng)
+            if c.name == "ReadCd" and "est" in a:
+                a["est"] = 2
+            if c.name == "ReadCd" and "mcsb" in a:
+                a["mcsb"] = 0x02
+            before = len(calls)
+            hist.append(c.facade)
+            wit = {"table": setname, "history": hist[-8:], "position": i, "method": c.facade, "args": a}
+            try:
+                harness.facade_call(c, s, DO.fresh(a) if c.custom else dict(a))
+            except Exception:  # noqa: BLE001
+                pass
+            sent = len(calls) - before
+            ctx.count("session_calls")
+            if sent != 1:
+                ctx.fail("C13:session.execute_count_%d" % min(sent, 3), "call %d (%s) of a long-lived facade reached the device %d times" % (i, c.facade, sent), wit)
+                continue
+            cmd = calls[-1]
+            full = dict(harness.defaults(c))
+            full.update(a)
+            if c.custom:
+                full["_outlen"] = len(cmd.dataout)
+            full.update(c.facade_fixed)
+            for mech, msg in harness.check_cdb(c, cmd.cdb, full):
+                ctx.fail("C13:session.cdb.%s.%s" % (c.facade, mech), "call %d (%s) after %r: %s" % (i, c.facade, hist[-4:-1], msg), dict(wit, cdb=bytes(cmd.cdb)))
+            if any(cmd is x for x in calls[:-1]):
+                ctx.fail("C13:session.command_object_reused", "the facade sent a command object it had sent before", wit)
+        ctx.case(("session", setname, tuple(hist), tuple(sorted(fail_at))), True, sample={"table": setname, "methods": hist[:10], "device_failures_at": sorted(fail_at)} if ctx.want_sample() else None)
+        ctx.count("sessions")
+
+
 def run(shard, ctx):
     import pyscsi.pyscsi.scsi_enum_command as E
     from pyscsi.pyscsi.scsi_command import SCSICommand
@@ -134,6 +203,8 @@ def run(shard, ctx):
     from vmon import harness
     from vmon.spec import cdb as S, dataout as DO
 
+    if shard["cmd"] is None:
+        return run_sessions(shard, ctx)
     c = S.COMMANDS[shard["cmd"]]
     rng = ctx.rng()
     events = []
@@ -342,7 +413,7 @@ def same(a, b):
 
 def finalize(merged, tier):
     c = merged["counters"]
-    for k in ("facade_calls", "execute_hook_evaluations", "results_compared", "fault_injections"):
+    for k in ("facade_calls", "execute_hook_evaluations", "results_compared", "fault_injections", "session_calls"):
         if c.get(k, 0) == 0:
             merged["inconclusive"].append("monitor never reached: %s" % k)
     n = len({m.split(":")[0] for m in merged["sets"].get("methods", ())})
@@ -354,4 +425,6 @@ def finalize(merged, tier):
 
 def replay(rec, ctx):
     w = rec["witness"]
+    if "cmd" not in w:
+        return run_sessions({"id": "session0", "cmd": None, "sessions": 30}, ctx)
     run({"id": w["cmd"], "cmd": w["cmd"], "reps": 1}, ctx)
